@@ -1,12 +1,374 @@
-//! C16 — ops evaluated on the real code and the generator of their inputs.
-#![allow(unused_imports, dead_code, clippy::all)]
+//! C16 — conversions between representations on the real code.
+//!
+//!   conv_chain <desc> [tag …]     build `desc`, then `T::from(previous)` along the tags
+//!                                 (al am mx el; wu wi only as the last tag)
+//!       =>  obs_0 obs_1 … obs_k   one observation per digraph, `panic` ends the list
+//!   conv_from_rows <repr> <rows>  al am: rows of ids (collected into `BTreeSet`s);
+//!                                 wu wi: rows of `[v w]` (collected into `BTreeMap`s)
+//!   conv_from_arcs <repr> <arcs>  mx el: `T::from(Vec<(usize, usize)>)`
+//!       =>  obs | panic
+//!
+//! obs = `[order [vertices] [[u v] …]]`, for the weighted lists `[order [vertices] [[u v w] …]]`.
+#![allow(clippy::all)]
 
 use crate::graphs::{self, Desc};
 use crate::rng::Rng;
 use crate::value::V;
+use graaf::{
+    AdjacencyList, AdjacencyListWeighted, AdjacencyMap, AdjacencyMatrix, ArcsWeighted, EdgeList,
+    Order, Vertices,
+};
+use std::collections::{BTreeMap, BTreeSet};
+use std::panic::{catch_unwind, AssertUnwindSafe};
 
-pub fn eval(_op: &str, _args: &[V]) -> Option<Vec<V>> {
-    None
+enum Any {
+    Al(AdjacencyList),
+    Am(AdjacencyMap),
+    Mx(AdjacencyMatrix),
+    El(EdgeList),
+    Wu(AdjacencyListWeighted<usize>),
+    Wi(AdjacencyListWeighted<isize>),
 }
 
-pub fn gen(_rng: &mut Rng, _thorough: bool, _emit: &mut dyn FnMut(String)) {}
+fn observe_wu(d: &AdjacencyListWeighted<usize>) -> V {
+    V::L(vec![
+        V::u(d.order()),
+        V::us(d.vertices()),
+        V::L(d.arcs_weighted().map(|(u, v, w)| V::L(vec![V::u(u), V::u(v), V::u(*w)])).collect()),
+    ])
+}
+
+fn observe_wi(d: &AdjacencyListWeighted<isize>) -> V {
+    V::L(vec![
+        V::u(d.order()),
+        V::us(d.vertices()),
+        V::L(d.arcs_weighted().map(|(u, v, w)| V::L(vec![V::u(u), V::u(v), V::i(*w)])).collect()),
+    ])
+}
+
+impl Any {
+    fn observe(&self) -> V {
+        match self {
+            Any::Al(d) => graphs::observe(d),
+            Any::Am(d) => graphs::observe(d),
+            Any::Mx(d) => graphs::observe(d),
+            Any::El(d) => graphs::observe(d),
+            Any::Wu(d) => observe_wu(d),
+            Any::Wi(d) => observe_wi(d),
+        }
+    }
+    fn build(desc: &Desc) -> Option<Any> {
+        Some(match desc.repr.as_str() {
+            "al" => Any::Al(desc.build_al()),
+            "am" => Any::Am(desc.build_am()),
+            "mx" => Any::Mx(desc.build_mx()),
+            "el" => Any::El(desc.build_el()),
+            _ => return None,
+        })
+    }
+    /// `T::from(self)` for the impl named by `tag`; `None` = there is no such impl.
+    fn convert(self, tag: &str) -> Option<Any> {
+        macro_rules! to {
+            ($d:expr) => {
+                match tag {
+                    "al" => Any::Al(AdjacencyList::from($d)),
+                    "am" => Any::Am(AdjacencyMap::from($d)),
+                    "mx" => Any::Mx(AdjacencyMatrix::from($d)),
+                    "el" => Any::El(EdgeList::from($d)),
+                    "wu" => Any::Wu(AdjacencyListWeighted::<usize>::from($d)),
+                    "wi" => Any::Wi(AdjacencyListWeighted::<isize>::from($d)),
+                    _ => return None,
+                }
+            };
+        }
+        Some(match self {
+            Any::Al(d) if tag != "al" => to!(d),
+            Any::Am(d) if tag != "am" => to!(d),
+            Any::Mx(d) if tag != "mx" => to!(d),
+            Any::El(d) if tag != "el" => to!(d),
+            _ => return None,
+        })
+    }
+}
+
+pub fn eval(op: &str, args: &[V]) -> Option<Vec<V>> {
+    match op {
+        "conv_chain" => {
+            let [desc, tags] = args else { return None };
+            let desc = Desc::parse(desc)?;
+            let tags: Vec<String> =
+                tags.as_list()?.iter().map(|t| t.as_atom().map(str::to_string)).collect::<Option<_>>()?;
+            // well-formedness of the path: known tags, no T -> T, weighted only last
+            let mut prev = desc.repr.clone();
+            for (i, t) in tags.iter().enumerate() {
+                if !graphs::ALL_REPRS.contains(&t.as_str()) || *t == prev {
+                    return None;
+                }
+                if (t == "wu" || t == "wi") && i + 1 != tags.len() {
+                    return None;
+                }
+                prev = t.clone();
+            }
+            if !graphs::UNWEIGHTED.contains(&desc.repr.as_str()) {
+                return None;
+            }
+            let mut cur = match catch_unwind(AssertUnwindSafe(|| Any::build(&desc))) {
+                Ok(Some(d)) => d,
+                Ok(None) => return None,
+                Err(_) => return Some(vec![V::atom("panic")]),
+            };
+            let mut out = vec![cur.observe()];
+            for t in &tags {
+                match catch_unwind(AssertUnwindSafe(|| cur.convert(t))) {
+                    Ok(Some(next)) => {
+                        out.push(next.observe());
+                        cur = next;
+                    }
+                    Ok(None) => return None,
+                    Err(_) => {
+                        out.push(V::atom("panic"));
+                        break;
+                    }
+                }
+            }
+            Some(out)
+        }
+        "conv_from_rows" => {
+            let [repr, rows] = args else { return None };
+            let rows = rows.as_list()?;
+            match repr.as_atom()? {
+                r @ ("al" | "am") => {
+                    let sets: Vec<BTreeSet<usize>> = rows
+                        .iter()
+                        .map(|row| row.as_usizes().map(|xs| xs.into_iter().collect()))
+                        .collect::<Option<_>>()?;
+                    Some(vec![if r == "al" {
+                        graphs::observe(&AdjacencyList::from(sets))
+                    } else {
+                        graphs::observe(&AdjacencyMap::from(sets))
+                    }])
+                }
+                "wu" => {
+                    let mut maps: Vec<BTreeMap<usize, usize>> = vec![];
+                    for row in rows {
+                        let mut m = BTreeMap::new();
+                        for e in row.as_list()? {
+                            let e = e.as_list()?;
+                            if e.len() != 2 {
+                                return None;
+                            }
+                            let _ = m.insert(e[0].as_usize()?, e[1].as_usize()?);
+                        }
+                        maps.push(m);
+                    }
+                    Some(vec![observe_wu(&AdjacencyListWeighted::<usize>::from(maps))])
+                }
+                "wi" => {
+                    let mut maps: Vec<BTreeMap<usize, isize>> = vec![];
+                    for row in rows {
+                        let mut m = BTreeMap::new();
+                        for e in row.as_list()? {
+                            let e = e.as_list()?;
+                            if e.len() != 2 {
+                                return None;
+                            }
+                            let _ = m.insert(e[0].as_usize()?, e[1].as_isize()?);
+                        }
+                        maps.push(m);
+                    }
+                    Some(vec![observe_wi(&AdjacencyListWeighted::<isize>::from(maps))])
+                }
+                _ => None,
+            }
+        }
+        "conv_from_arcs" => {
+            let [repr, arcs] = args else { return None };
+            let arcs = arcs.as_pairs()?;
+            // the matrix allocates order^2 bits: keep ids modest
+            if arcs.iter().any(|&(u, v)| u > 4096 || v > 4096) {
+                return None;
+            }
+            match repr.as_atom()? {
+                "mx" => Some(vec![graphs::observe(&AdjacencyMatrix::from(arcs))]),
+                "el" => Some(vec![graphs::observe(&EdgeList::from(arcs))]),
+                _ => None,
+            }
+        }
+        _ => None,
+    }
+}
+
+const TARGETS: [&str; 6] = ["al", "am", "mx", "el", "wu", "wi"];
+
+fn tags_v(tags: &[&str]) -> V {
+    V::L(tags.iter().map(|t| V::atom(t)).collect())
+}
+
+fn emit_all_pairs(d: &Desc, emit: &mut dyn FnMut(String)) {
+    for src in graphs::UNWEIGHTED {
+        let s = d.with_repr(src).to_v();
+        for tgt in TARGETS {
+            if tgt != src {
+                emit(format!("conv_chain {s} {}", tags_v(&[tgt])));
+            }
+        }
+    }
+}
+
+fn random_chain(rng: &mut Rng, src: &str) -> Vec<&'static str> {
+    let len = 2 + rng.below(4);
+    let mut tags: Vec<&'static str> = vec![];
+    let mut prev: &str = src;
+    for i in 0..len {
+        let last = i + 1 == len;
+        loop {
+            let t = if last && rng.chance(1, 3) { *rng.pick(&["wu", "wi"]) } else { *rng.pick(&graphs::UNWEIGHTED) };
+            if t != prev {
+                tags.push(t);
+                prev = t;
+                break;
+            }
+        }
+    }
+    tags
+}
+
+fn gen_rows(rng: &mut Rng, weighted: Option<bool>) -> String {
+    // 0 = valid, 1 = self-loop, 2 = head out of range, 3 = empty
+    let kind = match rng.below(20) {
+        0..=10 => 0,
+        11..=13 => 1,
+        14..=16 => 2,
+        _ => 3,
+    };
+    let n = if kind == 3 { 0 } else if rng.chance(1, 8) { 20 + rng.below(60) } else { 1 + rng.below(9) };
+    let mut rows: Vec<Vec<(usize, i64)>> = vec![];
+    for u in 0..n {
+        let mut row = vec![];
+        if n > 1 {
+            let k = match rng.below(4) { 0 => 0, 1 => 1, 2 => rng.below(n), _ => rng.below(4) };
+            for _ in 0..k {
+                let mut v = rng.below(n);
+                if v == u {
+                    v = (u + 1) % n;
+                }
+                let w = match weighted { Some(true) => rng.range(-50, 50), _ => rng.range(0, 50) };
+                row.push((v, w));
+                if rng.chance(1, 6) {
+                    // listed twice (sets / maps collapse it; for maps the last weight wins)
+                    row.push((v, w + 1));
+                }
+            }
+        }
+        rows.push(row);
+    }
+    if kind == 1 && n > 0 {
+        let u = rng.below(n);
+        let at = rng.below(rows[u].len() + 1);
+        rows[u].insert(at, (u, 1));
+    }
+    if kind == 2 && n > 0 {
+        let u = rng.below(n);
+        let bad = match rng.below(3) { 0 => n, 1 => n + 1 + rng.below(5), _ => 1 << 40 };
+        let at = rng.below(rows[u].len() + 1);
+        rows[u].insert(at, (bad, 1));
+    }
+    let body: Vec<String> = rows
+        .iter()
+        .map(|row| {
+            let items: Vec<String> = row
+                .iter()
+                .map(|&(v, w)| if weighted.is_some() { format!("[{v} {w}]") } else { format!("{v}") })
+                .collect();
+            format!("[{}]", items.join(" "))
+        })
+        .collect();
+    format!("[{}]", body.join(" "))
+}
+
+fn gen_arc_list(rng: &mut Rng) -> String {
+    let kind = match rng.below(20) { 0 | 1 => 2, 2..=5 => 1, _ => 0 }; // empty / self-loop / valid
+    let mut arcs: Vec<(usize, usize)> = vec![];
+    if kind != 2 {
+        let n = if rng.chance(1, 8) { 60 + rng.below(140) } else { 2 + rng.below(10) };
+        let k = 1 + rng.below(if n > 20 { 60 } else { 2 * n });
+        for _ in 0..k {
+            let u = rng.below(n);
+            let mut v = rng.below(n);
+            if v == u {
+                v = (u + 1) % n;
+            }
+            arcs.push((u, v));
+            if rng.chance(1, 5) {
+                arcs.push((u, v)); // duplicate
+            }
+        }
+        if kind == 1 {
+            let x = rng.below(n);
+            let at = rng.below(arcs.len() + 1);
+            arcs.insert(at, (x, x));
+        }
+    }
+    V::pairs(arcs).to_string()
+}
+
+pub fn gen(rng: &mut Rng, thorough: bool, emit: &mut dyn FnMut(String)) {
+    // (1) exhaustive small scope: every digraph on 1..=3 (thorough: 4) vertices, every ordered pair
+    let max_small = if thorough { 4 } else { 3 };
+    for n in 1usize..=max_small {
+        let pairs: Vec<(usize, usize)> =
+            (0..n).flat_map(|u| (0..n).filter(move |&v| v != u).map(move |v| (u, v))).collect();
+        for code in 0u32..(1u32 << pairs.len()) {
+            let arcs: Vec<(usize, usize)> =
+                pairs.iter().enumerate().filter(|(i, _)| code >> i & 1 == 1).map(|(_, &a)| a).collect();
+            let k = arcs.len();
+            let d = Desc { repr: "al".into(), verts: (0..n).collect(), arcs, weights: vec![1; k] };
+            if n <= 3 || !thorough {
+                emit_all_pairs(&d, emit);
+            } else {
+                // 4 vertices: one random source, every target
+                let src = *rng.pick(&graphs::UNWEIGHTED);
+                let s = d.with_repr(src).to_v();
+                for tgt in TARGETS {
+                    if tgt != src {
+                        emit(format!("conv_chain {s} {}", tags_v(&[tgt])));
+                    }
+                }
+            }
+        }
+    }
+    // (2) random contiguous digraphs (shared generator: families x densities x order mixture):
+    //     every ordered pair for a part, random chains of length 2..5 for all
+    let n_graphs = if thorough { 1500 } else { 220 };
+    for i in 0..n_graphs {
+        let (_fam, d) = graphs::gen_desc(rng, "al", 100);
+        if i % 3 == 0 || d.order() <= 8 {
+            emit_all_pairs(&d, emit);
+        }
+        for _ in 0..4 {
+            let src = *rng.pick(&graphs::UNWEIGHTED);
+            let tags = random_chain(rng, src);
+            emit(format!("conv_chain {} {}", d.with_repr(src).to_v(), tags_v(&tags)));
+        }
+    }
+    // (3) outside the property (correspondence only): AdjacencyMap sources with non-contiguous ids
+    for _ in 0..(if thorough { 1500 } else { 300 }) {
+        let (_fam, d) = graphs::gen_am_sparse(rng, 8);
+        let tgt = *rng.pick(&["al", "mx", "el", "wu", "wi"]);
+        emit(format!("conv_chain {} {}", d.to_v(), tags_v(&[tgt])));
+    }
+    // (4) From<rows>
+    for _ in 0..(if thorough { 10000 } else { 1600 }) {
+        match rng.below(4) {
+            0 => emit(format!("conv_from_rows al {}", gen_rows(rng, None))),
+            1 => emit(format!("conv_from_rows am {}", gen_rows(rng, None))),
+            2 => emit(format!("conv_from_rows wu {}", gen_rows(rng, Some(false)))),
+            _ => emit(format!("conv_from_rows wi {}", gen_rows(rng, Some(true)))),
+        }
+    }
+    // (5) From<arcs>
+    for _ in 0..(if thorough { 10000 } else { 1600 }) {
+        let repr = if rng.chance(1, 2) { "mx" } else { "el" };
+        emit(format!("conv_from_arcs {repr} {}", gen_arc_list(rng)));
+    }
+}
